@@ -14,7 +14,7 @@ Mirrors, definition by definition,
 * `fcppt/container/grid/moore_neighbors.hpp`, `neumann_neighbors.hpp`
 * `fcppt/iterator/range_impl.hpp`, `iterator/adapt_range.hpp`, `iterator/make_range.hpp`, `iterator/range_comparison.hpp`
 * `fcppt/range/size.hpp`                : `to_unsigned(std::distance(begin, end))`; `range/empty.hpp`, `range/singular.hpp`, `range/from_pair.hpp`
-* `fcppt/math/int_range_count.hpp`      : the static list `0 .. Count-1`
+* `fcppt/math/int_range_count.hpp`, `math/int_range.hpp` (`mpl/list/interval.hpp`) : the static lists `0 .. Count-1`, `Start .. End-1`
 * `fcppt/iterator/base_impl.hpp`        : the loop `for (it = begin(); it != end(); ++it) *it` that every range-for performs
                                           (`operator!=` = `!equal`, `operator++` = `increment`, `operator*` = `dereference`),
                                           `operator+`/`+=`/`-=`/`-`/`[]` in terms of `advance`
@@ -428,5 +428,9 @@ def IterRange.size (r : IterRange) : Int := (IntTy.mk false 64).wrap ((r.end_ : 
 /-- `math::int_range_count<Count>`: `mpl::list::interval<0, Count>` = the constants `0 + Values…` of
 `std::make_integer_sequence<size_type, Count - 0>` -/
 def mathIntRangeCount (count : Nat) : List Nat := (List.range (count - 0)).map (0 + ·)
+
+/-- `math::int_range<Start, End>` = `mpl::list::interval<Start, End>` (requires `Start ≤ End`): `Begin + Values…` over
+`std::make_integer_sequence<_, End - Begin>` -/
+def mathIntRange (start end_ : Nat) : List Nat := (List.range (end_ - start)).map (start + ·)
 
 end Fcppt.C18
